@@ -20,7 +20,7 @@ class Stmib(Opcode):
                         processor.mem_a_set(address, 4, processor.registers.get(i))
                     address = add(address, 4, 32)
             if bit_at(self.registers, 15):
-                processor.mem_a_set(address, 4, processor.registers.pc_store_value())
+                processor.mem_a_set(address, 4, processor.registers.get_pc())
             if self.wback:
                 processor.registers.set(
                     self.n, add(processor.registers.get(self.n), 4 * bit_count(self.registers, 1, 16), 32)
